@@ -22,6 +22,7 @@ KNOWN_FILE = os.path.join(HERE, "known_findings.json")
 
 NCPU = min(16, os.cpu_count() or 1)
 CASE_TIMEOUT = 120  # seconds; expiry = inconclusive (exit 2), never a violation
+SHRINK_CALLS = 400  # re-executions Hypothesis' shrinker may spend per failure
 MAX_ROUNDS = 4  # distinct unlisted signatures a worker keeps searching past
 _ITEMS = {}  # per-process cache of enumerated item lists
 
@@ -264,13 +265,21 @@ def _hyp_body(job, k):
         last = [None]
 
         def body(case):
+            if ctx.frozen:
+                # shrinking: bounded number of re-executions, then every
+                # candidate "passes" so the shrinker stops at the best so far
+                hyp_calls[0] += 1
+                if hyp_calls[0] > SHRINK_CALLS:
+                    return
             v = _run_case(ctx, job["fn"], case, st)
             if v is not None:
                 ctx.frozen = True
-                last[0] = v
+                if last[0] is None or len(_show(v.case)) <= len(_show(last[0].case)):
+                    last[0] = v
                 raise v
 
-        phases = [Phase.generate, Phase.shrink] if job["shrink"] else [Phase.generate]
+        hyp_calls = [0]
+        phases = [Phase.generate, Phase.shrink] if job["shrink"] == "hyp" else [Phase.generate]
         test = seed(base_seed)(settings(
             max_examples=n, database=None, deadline=None, derandomize=False,
             report_multiple_bugs=False, phases=phases,
@@ -281,23 +290,24 @@ def _hyp_body(job, k):
             test()
             final = st
             break
-        except Violation:
+        except BaseException as e:
+            if last[0] is None:
+                if isinstance(e, HarnessAbort):
+                    stats.errors.extend(st.errors)
+                else:
+                    stats.errors.append("hypothesis/harness error: %s\n%s" % (
+                        e, traceback.format_exc(limit=10)))
+                final = st
+                break
             v = last[0]
+            if job["shrink"] == "ast":
+                v = _ast_shrink(job, v)
             stats.failures.append(_failure_record(v))
             ignored.add(v.sig)
             final = st
             if rnd == MAX_ROUNDS:
                 break
             continue
-        except HarnessAbort:
-            stats.errors.extend(st.errors)
-            final = st
-            break
-        except BaseException as e:
-            stats.errors.append("hypothesis/harness error: %s\n%s" % (
-                e, traceback.format_exc(limit=10)))
-            final = st
-            break
     if final is not None:
         final.errors = []
         # known hits pinned in later rounds are unlisted failures already recorded
@@ -306,6 +316,38 @@ def _hyp_body(job, k):
                 del final.known_hits[key]
         stats.merge(final)
     return stats
+
+
+def _ast_shrink(job, v):
+    from . import shrink as _shrink
+    sig = v.sig
+    found = {}
+
+    def fails(c):
+        ctx = Ctx(Stats(), lambda s: None)
+        ctx.frozen = True
+        try:
+            with _Alarm():
+                job["fn"](ctx, c)
+        except Violation as v2:
+            if v2.sig == sig:
+                found[id(c)] = v2
+                return True
+        except CaseTimeout:
+            return False
+        return False
+
+    try:
+        best = _shrink.shrink_case(v.case, fails, budget=job.get("shrink_budget", 300))
+    except Exception:
+        return v
+    if best is v.case:
+        return v
+    v2 = found.get(id(best))
+    if v2 is None:
+        return v
+    v2.case = best
+    return v2
 
 
 def _enum_body(job, chunk):
@@ -414,7 +456,7 @@ class Runner:
         for r in results:
             p.merge(r)
 
-    def hyp(self, name, strategy, fn, examples, workers=None, shrink=True):
+    def hyp(self, name, strategy, fn, examples, workers=None, shrink="hyp"):
         """Run `fn(ctx, case)` on `examples` generated cases per worker."""
         if self._replaying(name, fn):
             return
@@ -425,7 +467,8 @@ class Runner:
             if callable(strategy) and not hasattr(strategy, "example"):
                 strategy = strategy()
             job = dict(prop=self.prop, part=name, strategy=strategy, fn=fn, examples=examples,
-                       verif_seed=self.seed, is_known=self._is_known, shrink=shrink)
+                       verif_seed=self.seed, is_known=self._is_known, shrink=shrink,
+                       shrink_budget=300 if self.quick else 1200)
             self.worker_result = _hyp_body(job, self.worker[1])
             raise _WorkerDone()
         self._collect(name, _map_tasks(self._specs(name, workers)))
